@@ -5,6 +5,8 @@
 set -e
 cd "$(dirname "$0")/../coq"
 mkdir -p ../work
+# regenerate coq/gen/Gen.v from the Go source (translator), never committed
+../lib/run_gotrans.sh >/dev/null 2>&1 || echo "build_coq: gotrans failed (reported by the checks that depend on it)"
 if [ $# -gt 0 ]; then
   exec python3 ../lib/coqbuild.py "$@"
 fi
@@ -14,8 +16,9 @@ flock 9
   echo "-Q model SigM"
   echo "-Q proofs SigP"
   echo "-Q props SigT"
+  echo "-Q gen SigG"
   echo "-arg -w -arg -notation-overridden,-deprecated-hint-without-locality,-deprecated-instance-without-locality"
-  ls model/*.v proofs/*.v props/*.v 2>/dev/null || true
+  ls gen/*.v model/*.v proofs/*.v props/*.v 2>/dev/null || true
 } > _CoqProject
 coq_makefile -f _CoqProject -o Makefile >/dev/null
 timeout ${COQ_BUILD_TIMEOUT:-3000} make -k -j${COQ_JOBS:-8}
